@@ -221,6 +221,9 @@ func init() {
 			rulePackBeforeIndex(c)
 			ruleFlushOrder(c)
 			ruleSnapshotAfterUpload(c)
+			// copy after an interrupted copy: a tree already in the destination index says nothing
+			// about what lies below it (shared with C32/C42)
+			ruleVisitedSet(c)
 		},
 		Controls: []Control{
 			{Name: "mixed-pack-becomes-error", File: "cmd/restic/cmd_check.go",
